@@ -50,16 +50,21 @@ func NewConnectednessManager() *ConnectednessManager {
 // AssociatePeer associate a peer to a group
 func (m *ConnectednessManager) AssociatePeer(group string, peer peer.ID) {
 	m.muState.Lock()
-	defer m.muState.Unlock()
-
 	sg := m.getGroupStatus(group)
 	sp := m.getPeerStatus(peer)
+	m.muState.Unlock()
 
+	// lock order is notify.L then muState, as in WaitForConnectednessChange
 	sg.notify.L.Lock()
-	if _, ok := sg.peers[peer]; !ok {
+	m.muState.Lock()
+	_, ok := sg.peers[peer]
+	if !ok {
 		// we got a new peer, update and signal an update
 		sg.peers[peer] = sp
 		sp.groups[group] = sg
+	}
+	m.muState.Unlock()
+	if !ok {
 		sg.notify.Broadcast()
 	}
 	sg.notify.L.Unlock()
@@ -68,16 +73,22 @@ func (m *ConnectednessManager) AssociatePeer(group string, peer peer.ID) {
 // UpdateState update peer current connectedness state
 func (m *ConnectednessManager) UpdateState(peer peer.ID, update ConnectednessType) {
 	m.muState.Lock()
-	defer m.muState.Unlock()
-
+	var groups []*GroupStatus
 	sp := m.getPeerStatus(peer)
 	if sp.status != update {
 		sp.status = update
-
-		// notify each group that need an update
 		for _, g := range sp.groups {
-			g.notify.Broadcast()
+			groups = append(groups, g)
 		}
+	}
+	m.muState.Unlock()
+
+	// notify each group that need an update, holding the notify lock so that a
+	// waiter between its status check and its Wait cannot miss the broadcast
+	for _, g := range groups {
+		g.notify.L.Lock()
+		g.notify.Broadcast()
+		g.notify.L.Unlock()
 	}
 }
 
